@@ -35,7 +35,8 @@ COQ_TIMEOUT = int(os.environ.get("VERIF_COQ_TIMEOUT", "900"))
 
 COQ_FLAGS = ["-Q", str(COQ / "theories"), "FL", "-Q", str(COQ / "props"), "FLProps",
              "-Q", str(COQ / "gen"), "FLGen",
-             "-w", "-notation-overridden,-deprecated-hint-without-locality,-deprecated-instance-without-locality"]
+             "-w", "-notation-overridden,-deprecated-hint-without-locality,-deprecated-instance-without-locality,"
+                   "-deprecated-syntactic-definition,-ambiguous-paths"]
 
 ALLOWED_AXIOMS: set[str] = set()   # the development is axiom-free; see DESIGN.md section 8
 
@@ -230,17 +231,57 @@ class BuildLock:
         self.f.close()
 
 
-def coq_build_theories():
-    """Incremental full-.vo build of coq/theories (no -vos)."""
-    with BuildLock():
-        mk = COQ / "Makefile"
-        proj = COQ / "_CoqProject"
-        if not mk.exists() or mk.stat().st_mtime < proj.stat().st_mtime:
-            rc, out, err = _run(["coq_makefile", "-f", "_CoqProject", "-o", "Makefile"], 120, cwd=COQ)
-            if rc != 0:
-                return False, out + err
-        rc, out, err = _run(["make", f"-j{NPROC}"], COQ_TIMEOUT, cwd=COQ)
-        return rc == 0, out + err
+def regen_sources():
+    """Run every translator against the current REPO tree, (re)write coq/gen/*.v when the text
+    changed, and regenerate _CoqProject from the files on disk.  A translator that cannot
+    translate the current source writes a fragment that does not compile (fail closed).
+    Returns dict translator -> error string (only failures)."""
+    import translators
+    gen = COQ / "gen"
+    gen.mkdir(exist_ok=True)
+    failures = {}
+    wanted = set()
+    for tname in translators.ALL:
+        tmod = importlib.import_module(f"translators.{tname}")
+        try:
+            outputs = tmod.translate(REPO)
+        except Exception as e:  # fail closed
+            failures[tname] = f"{type(e).__name__}: {e}"
+            msg = failures[tname].replace("*)", "* )").replace("(*", "( *")
+            outputs = {fn: f"(* translator {tname} failed: {msg} *)\n"
+                           f"Definition translator_failed : False := I.\n" for fn in tmod.OUTPUTS}
+        for fname, text in outputs.items():
+            wanted.add(fname)
+            f = gen / fname
+            if not f.exists() or f.read_text() != text:
+                f.write_text(text)
+    for f in gen.glob("*.v"):
+        if f.name not in wanted:
+            f.unlink()
+    head = ["-Q theories FL", "-Q props FLProps", "-Q gen FLGen",
+            "-arg -w -arg -notation-overridden,-deprecated-hint-without-locality,"
+            "-deprecated-instance-without-locality,-deprecated-syntactic-definition,-ambiguous-paths"]
+    files = []
+    for d in ("theories", "gen", "props"):
+        files += sorted(str(p.relative_to(COQ)) for p in (COQ / d).rglob("*.v"))
+    text = "\n".join(head + files) + "\n"
+    proj = COQ / "_CoqProject"
+    if not proj.exists() or proj.read_text() != text:
+        proj.write_text(text)
+    return failures
+
+
+def coq_make(targets=None, keep_going=False):
+    """Incremental full-.vo build (no -vos) of the given .vo targets (default: everything)."""
+    mk = COQ / "Makefile"
+    proj = COQ / "_CoqProject"
+    if not mk.exists() or mk.stat().st_mtime < proj.stat().st_mtime:
+        rc, out, err = _run(["coq_makefile", "-f", "_CoqProject", "-o", "Makefile"], 120, cwd=COQ)
+        if rc != 0:
+            return False, out + err
+    cmd = ["make", f"-j{NPROC}"] + (["-k"] if keep_going else []) + list(targets or [])
+    rc, out, err = _run(cmd, COQ_TIMEOUT, cwd=COQ)
+    return rc == 0, out + err
 
 
 _ASSUME_RE = re.compile(r"^(Closed under the global context|Axioms:)", re.M)
